@@ -205,7 +205,7 @@ func init() {
 			for max := 1; max <= 5; max++ {
 				for _, tm := range []string{"fast", "slow"} {
 					for clients := 1; clients <= 4; clients++ {
-						depth := e.Pick(6, 8) - (clients-1)/2
+						depth := e.Pick(6, 7) - (clients-1)/2
 						if tm == "slow" {
 							depth -= 2 // long virtual times: every limiter's cleanup ticker fires
 						}
